@@ -11,6 +11,7 @@ import sltgen
 import vlib
 
 PID = "C05"
+SHRINK_TEXT = True     # verdicts depend on the text alone (parse -> Display -> parse on the implementation, model on the same text)
 NEEDS_CLI = True
 RULE = ("parseable scripts from the C03 grammar generator (every record kind, every clause combination, all humantime unit "
         "spellings and compound durations, arbitrary layouts incl. CRLF/tabs/NBSP, several connection/guard lines in a row) plus "
